@@ -52,10 +52,10 @@ CONFIGS["C43"] = dict(
     rule="histories of 10-34 operations over users {admin,u1,u2} x DSNs {3 restricted - one of them named like the unrestricted one plus a dotted suffix -, 1 unrestricted} x tables {t1,t2}; row requests in plain / "
          "abstract / upsert form, one in five as a one-task @transaction script (select, insert, update, delete, sql UPDATE, readrows DELETE..RETURNING; "
          "u1 holds the ego.sql user permission, u2 does not); a quarter of the row requests also carry ?user=<the other ordinary user>; half of the runs use the database-backed DSN service "
-         "(with its DSN cache) instead of the in-memory file service; one operation in forty turns the unrestricted DSN into a restricted one through its first DSN-level grant; "
+         "(with its DSN cache) instead of the in-memory file service; one operation in 25 begins a REST transaction on a restricted DSN and uses its id through the URL of the unrestricted one; one operation in forty turns the unrestricted DSN into a restricted one through its first DSN-level grant; "
          "non-trivial = >=4 operations; distinct = distinct history hash",
     real=["router.ServeHTTP + authentication", "tables.AddStaticRoutes handlers (rows, table delete/create, permissions)", "dsns file service (in memory) or dsns database service on SQLite (knob)", "permission store via resources on SQLite", "caches"],
     stubbed=["user store: in-memory AuthService (existing seam) with MinCost bcrypt hashes", "time: synctest fake clock", "sync: scheduling shim"],
     assumptions=["every user holds DSN-level read/write access, so that table grants are the deciding gate", "the permission store is available throughout (no faults in this engine, per the statement)"],
-    required_probes=["requests_that_must_be_refused", "requests_allowed_by_a_grant", "grants", "tables_dropped", "upserts_of_existing_rows", "transaction_script_requests", "requests_naming_another_user"],
+    required_probes=["requests_that_must_be_refused", "requests_allowed_by_a_grant", "grants", "tables_dropped", "upserts_of_existing_rows", "transaction_script_requests", "requests_naming_another_user", "cross_dsn_transaction_requests", "unrestricted_dsn_became_restricted"],
 )
